@@ -5,6 +5,7 @@ package main
 import (
 	"fmt"
 	"regexp"
+	"regexp/syntax"
 	"sort"
 	"strings"
 
@@ -434,8 +435,40 @@ func runUnits(c *Ctx) {
 		}
 		c.Check(ok, "UNITS", shortName(f), "HH:MM:SS start time as a duration", p.pos(f.Pos()), "(3600*h + 60*m + s) * time.Second from the three regexp groups", why)
 	}
+	// the texts accepted as start time / start date are exactly HH:MM:SS and YYYYMMDD (oracle: gtfs-realtime.proto)
+	for _, pr := range []struct{ spec, want, what string }{
+		{"gtfs:parseStartTime", `^([0-9]{2}):([0-9]{2}):([0-9]{2})$`, "start_time is HH:MM:SS"},
+		{"gtfs:parseStartDate", `^([0-9]{4})([0-9]{2})([0-9]{2})$`, "start_date is YYYYMMDD"},
+	} {
+		f := c.anchor(pr.spec)
+		if f == nil {
+			continue
+		}
+		got, found := "", false
+		for _, g := range c.regionOf(f) {
+			for _, blk := range g.Blocks {
+				for _, in := range blk.Instrs {
+					for _, op := range in.Operands(nil) {
+						if gl, ok := (*op).(*ssa.Global); ok && shortType(deref(gl.Type())) == "*regexp.Regexp" {
+							if pat, ok := c.globalRegexpPattern(gl); ok {
+								got, found = pat, true
+							}
+						}
+					}
+				}
+			}
+		}
+		okPat := false
+		if found {
+			rx, e1 := syntax.Parse(got, syntax.Perl)
+			want, e2 := syntax.Parse(pr.want, syntax.Perl)
+			okPat = e1 == nil && e2 == nil && rx.Simplify().String() == want.Simplify().String()
+		}
+		c.Check(okPat, "UNITS", shortName(f), pr.what, p.pos(f.Pos()), "the accepted texts are those of "+pr.want, "the pattern that decides which texts are accepted is "+got+", not "+pr.want+": well-formed values are dropped or malformed ones accepted")
+	}
 	if f := c.anchor("gtfs:parseStartDate"); f != nil {
 		b := newBinder(c)
+		b.showBodies = true // the groups may be converted by a helper
 		ok, why := false, "no time.Date call"
 		for _, blk := range f.Blocks {
 			for _, in := range blk.Instrs {
